@@ -27,6 +27,7 @@
 #include "algebra.h"
 
 #include "memwrapper.h"
+#include "verif_hooks.h"
 
 #define MAXTHREADS 256
 
@@ -703,6 +704,7 @@ void MT_MatrixDVectorDotProduct(matrix *m, dvector *v, dvector *p)
         arg[th].res = p;
         arg[th].from = from;
         arg[th].to = to;
+        VERIF_SLICE("MT_MatrixDVectorDotProduct", th, from, to, m->row);
         pthread_create(&threads[th], NULL, MatrixDVectorDotProductWorker, (void*) &arg[th]);
 
         from = to;
@@ -821,6 +823,7 @@ void MT_DVectorMatrixDotProduct(matrix *m, dvector *v, dvector *p)
         arg[th].res = p;
         arg[th].from = from;
         arg[th].to = to;
+        VERIF_SLICE("MT_DVectorMatrixDotProduct", th, from, to, m->col);
         pthread_create(&threads[th], NULL, DVectorMatrixDotProductWorker, (void*) &arg[th]);
 
         from = to;
